@@ -1,8 +1,14 @@
 // ===== prelude/macros.rs — the message-model construction macros (engine level, TRUSTED) =====
 // Same shape as src/model/data.rs `trame!` / `component!`; the only difference is that the element is
 // handed to the prelude container through `Field::of(..)` instead of an unsizing `Box<dyn Message>` coercion.
+// Both macros are routed through Verus' expression rewriter (as vstd does for vec!/seq!) so that closures inside
+// component![..] may carry Verus contracts (`|x: &U16| -> (r: T) ensures ..`).
 #[allow(unused_macros)]
 macro_rules! trame {
+    [$($tail:tt)*] => { ::vstd::prelude::verus_exec_macro_exprs!(trame_internal!($($tail)*)) };
+}
+#[allow(unused_macros)]
+macro_rules! trame_internal {
     () => { Trame::new() };
     ($( $val: expr ),*) => {{
          let mut vec = Trame::new();
@@ -12,6 +18,10 @@ macro_rules! trame {
 }
 #[allow(unused_macros)]
 macro_rules! component {
+    [$($tail:tt)*] => { ::vstd::prelude::verus_exec_macro_exprs!(component_internal!($($tail)*)) };
+}
+#[allow(unused_macros)]
+macro_rules! component_internal {
     () => { Component::new() };
     ($( $key: expr => $val: expr ),*) => {{
          let mut map = Component::new();
